@@ -468,7 +468,8 @@ func isEmptyFreshTerm(t Term) bool {
 // searchShape: `for k, e := range recv.spine { if e.getVal() == param { HIT } }; MISS` on the surfaced outer paths.
 // what: "key" (hit: return the range key, miss: return -1), "true" (hit: true, miss: false), "keyOrPanic" (hit: key, miss: panic).
 func searchShape(c *Ctx, fd *ast.FuncDecl, what string) string {
-	paths, why := c.runPaths(fd)
+	// a search built on a sibling search of the same receiver (Contains as IndexOf(x) >= 0, called statically) is followed into it
+	paths, why := c.runPathsWith(fd, func(x *SX) { x.InlineStaticSelf = true })
 	if why != "" {
 		return "body outside the path vocabulary: " + why
 	}
@@ -557,7 +558,22 @@ func searchShape(c *Ctx, fd *ast.FuncDecl, what string) string {
 				return "a match does not return the range key"
 			}
 		case "true":
-			if p.End != "return" || len(result) != 1 || !isConstBoolTerm(simplify(result[0]), true) {
+			okTrue := p.End == "return" && len(result) == 1 && isConstBoolTerm(simplify(result[0]), true)
+			if !okTrue && p.End == "return" && len(result) == 1 && loop.Key != nil {
+				// a truth value computed from the position of the match (`index >= 0`): true for every position
+				okTrue = true
+				for k := int64(0); k <= 3 && okTrue; k++ {
+					e := &termEnv{hook: func(t Term) (int64, bool) {
+						if isParamTerm(t, loop.Key) {
+							return k, true
+						}
+						return 0, false
+					}}
+					val, ok := e.bool(result[0])
+					okTrue = ok && val
+				}
+			}
+			if !okTrue {
 				return "a match does not return true"
 			}
 		}
@@ -807,8 +823,31 @@ func c06Views(c *Ctx) {
 				}
 			}
 		}
+		if msg != "" && why == "" && len(paths) == 1 {
+			// not the plain loop of Add calls: decide on the spine model what the returned list holds for a receiver of 0..3 fields
+			want := func(k int) ([]string, map[string]string) {
+				var l []string
+				for j := 0; j < k; j++ {
+					if spec.what == "key" {
+						l = append(l, "pv(k"+itoa(j)+")")
+					} else {
+						l = append(l, "pv(getVal(e"+itoa(j)+"))")
+					}
+				}
+				return l, nil
+			}
+			kind := ""
+			if spec.what == "key" {
+				kind = "string"
+			}
+			if bad, undec := c.foldBuildInto(v, paths[0], nil, nil, false, true, false, kind, want); bad == "" && undec == "" {
+				msg = ""
+			} else {
+				msg += "; folded on the spine model: " + bad + undec
+			}
+		}
 		if msg == "" {
-			ob.Ok("one unfiltered Add per field of the %s", map[string]string{"key": "range key", "val": "field's getVal()"}[spec.what])
+			ob.Ok("one unfiltered entry per field: the %s", map[string]string{"key": "range key", "val": "field's getVal()"}[spec.what])
 		} else {
 			ob.Fail("%s does not add exactly one entry per field: %s", spec.name, msg)
 		}
